@@ -76,6 +76,14 @@ def r12_2(ctx: Ctx):
         if "size" in o.construct or "seed-appended" in o.construct:
             o.rule = "R12.2"
             obs.append(o)
+    # nothing removes rows from the offspring between the operator pipeline and the truncation to |P|: topk(|P|) of fewer than
+    # |P| rows returns them all, so the generation shrinks (and stays smaller)
+    run_m = ctx.prog.own_method("BaseSEA", "run")
+    drops = [y for y in body_walk(run_m.node) if isinstance(y, ast.Assign) and len(y.targets) == 1 and isinstance(y.targets[0], ast.Name) and isinstance(y.value, ast.Subscript) and isinstance(y.value.value, ast.Name) and y.value.value.id == y.targets[0].id and not isinstance(y.value.slice, ast.Slice)]
+    if drops:
+        obs.append(ctx.ob("R12.2", run_m, drops[0], status=VIOLATION, detail=f"BaseSEA.run removes rows from a population before the survivor selection (`{norm(drops[0])[:70]}`): the truncation to the parents' size can only return what is left, so whenever more rows are dropped than elites are added the generation has fewer individuals than configured - for good", construct="rows-dropped"))
+    else:
+        obs.append(ctx.ob("R12.2", run_m, run_m.node, detail="BaseSEA.run hands every offspring row to the survivor selection", construct="rows-dropped"))
     # Individual.create_population(n, ...) returns exactly n individuals: one per index, none filtered out
     cp = ctx.prog.own_method("Individual", "create_population")
     cps = cp.params()
@@ -122,6 +130,11 @@ def r12_2(ctx: Ctx):
     ok = len(sl) == 2 and sorted(canon(s.slice) if False else (("-" if s.slice.lower is not None else "") + canon(s.slice.lower or s.slice.upper)) for s in sl) == sorted([f"--{k}" if False else f"-{'-' + k}"[1:], k]) if False else None
     texts = sorted(canon(s).split("[")[-1] for s in sl)
     ok = texts == sorted([f"-{k}:]", f":{k}]"])
+    # rows chosen by comparing with a threshold VALUE (`flatnonzero(f <= t)`, a boolean mask) instead of by position: every row
+    # tied with the k-th best passes, so more than k rows come back
+    byval = [c for c in body_walk(tk.node) if (isinstance(c, ast.Call) and norm(c.func).split(".")[-1] in ("flatnonzero", "nonzero", "where", "argwhere") and c.args and isinstance(c.args[0], ast.Compare) and any(isinstance(x, ast.Attribute) and x.attr == "fitnesses" for x in ast.walk(c.args[0]))) or (isinstance(c, ast.Subscript) and isinstance(c.slice, ast.Compare) and any(isinstance(x, ast.Attribute) and x.attr == "fitnesses" for x in ast.walk(c.slice)))]
+    if byval:
+        obs.append(ctx.ob("R12.2", tk, byval[0], status=VIOLATION, detail=f"Population.topk selects rows by value (`{norm(byval[0])[:70]}`): all rows tied with the k-th best are kept, so topk(k) returns MORE than k rows when fitness values tie (plateaus, duplicates, the cutoff's sentinel) and the generation grows", construct="topk-by-value"))
     obs.append(ctx.ob("R12.2", tk, tk.node, status=OK if ok else VIOLATION, detail="topk(k) takes exactly k indices from one end of the argsort" if ok else f"Population.topk slices `{texts}` instead of [-k:] / [:k]: the selected population does not have min(k, n) rows", construct="topk-size"))
     return obs
 
